@@ -27,8 +27,12 @@ CONSTANTS
   TickVals = {}
   Targets = {"A", "B", "C"}
   AutoVals = {TRUE, FALSE}
+  SubOneshot = {FALSE}
   Senders = {"A", "B", "C"}
   QuitCodes = {0, 1}
+  ForeignOps = {}
+  MaxRefs = 1
+  MaxHeld = 0
   Setup = "loop3"
 INIT Init
 NEXT Next
